@@ -6,20 +6,30 @@ Import ListNotations.
 Open Scope string_scope.
 Set Implicit Arguments.
 
-Local Notation rq := (@rd_quat Qc).
-Local Notation r1 := (@rd_v1 Qc).  Local Notation r2 := (@rd_v2 Qc).  Local Notation r3 := (@rd_v3 Qc).  Local Notation r4 := (@rd_v4 Qc).
-Local Notation rs := (@rd_s Qc).
+Section G.
+  Variable F : Type.
+  Variable O : Ops F.
+  Variable T : Trig F.
+  Variable A : Approx F.
+  Variable toNat : F -> nat.
 
-Definition tab_c14 (o : Orc) : list (string * (list Qc -> val)) :=
-  let T := TrigQ o in [
-  ("v1_lerp", run3 r1 r1 rs (fun a b t => vq (v1_list (v1_lerp O a b t))));
-  ("v2_lerp", run3 r2 r2 rs (fun a b t => ov2 (v2_lerp O a b t)));
-  ("v3_lerp", run3 r3 r3 rs (fun a b t => ov3 (v3_lerp O a b t)));
-  ("v4_lerp", run3 r4 r4 rs (fun a b t => ov4 (v4_lerp O a b t)));
-  ("quat_lerp", run3 rq rq rs (fun a b t => oq (quat_lerp O a b t)));
-  ("quat_nlerp", run3 rq rq rs (fun a b t => oq (quat_nlerp O T a b t)));
-  ("quat_slerp", run3 rq rq rs (fun a b t => oq (quat_slerp O T a b t)))
+
+  Local Notation rq := (@rd_quat F).
+  Local Notation r1 := (@rd_v1 F).    Local Notation r2 := (@rd_v2 F).    Local Notation r3 := (@rd_v3 F).    Local Notation r4 := (@rd_v4 F).
+  Local Notation rs := (@rd_s F).
+
+Definition gtab_c14 : list (string * (list F -> gval F)) := [
+  ("v1_lerp", grun3 r1 r1 rs (fun a b t => GQ (v1_list (v1_lerp O a b t))));
+  ("v2_lerp", grun3 r2 r2 rs (fun a b t => gv2 (v2_lerp O a b t)));
+  ("v3_lerp", grun3 r3 r3 rs (fun a b t => gv3 (v3_lerp O a b t)));
+  ("v4_lerp", grun3 r4 r4 rs (fun a b t => gv4 (v4_lerp O a b t)));
+  ("quat_lerp", grun3 rq rq rs (fun a b t => gq (quat_lerp O a b t)));
+  ("quat_nlerp", grun3 rq rq rs (fun a b t => gq (quat_nlerp O T a b t)));
+  ("quat_slerp", grun3 rq rq rs (fun a b t => gq (quat_slerp O T a b t)))
 ].
+End G.
+
+Definition tab_c14 (o : Orc) : list (string * (list Qc -> val)) := qtab (gtab_c14 OpsQ (TrigQ o)).
 
 Definition run_c14 : runner := fun f o args =>
   match dispatch (tab_c14 o) f with Some h => h args | None => VBad end.
